@@ -229,7 +229,8 @@ func (ex *Exec) callTrigger(fn *Function, t *Table, newVals, oldVals []Value) []
 		env.qualifiedOnly = append(env.qualifiedOnly, &binding{alias: "old", cols: t.colNames, row: oldVals})
 	}
 	fr := &plFrame{ex: ex, env: env, newB: newB}
-	ret := fr.runBlock(blk, "\x00trigger")
+	var ret Value
+	ex.withSchema(t.Schema, func() { ret = fr.runBlock(blk, "\x00trigger") })
 	if ret == nil {
 		return nil
 	}
